@@ -104,6 +104,7 @@ ParmEventOk(ev) ==
           /\ (ev.small => \A i \in 1..Len(ev.levels) : ConstOk(p, ev.levels[i]))
           /\ ev.rebuild_same              \* building the context again gives the same ids on every level
           /\ ev.serialized_same           \* ... also from the deserialized serialization of the parameters
+          /\ ev.order_same                \* ... and whatever order the builder's setters are called in
      ELSE SpecificError(ev.error)
 
 \* identifiers are collision-free: events are sorted by identifier, equal neighbours must be the same parameters
@@ -117,14 +118,14 @@ IdOk(prev, ev) == prev.id = ev.id => SameParams(prev, ev)
 RECURSIVE NoDivisorFrom(_, _)
 NoDivisorFrom(p, d) == IF d * d > p THEN TRUE ELSE IF p % d = 0 THEN FALSE ELSE NoDivisorFrom(p, d + 2)
 IsPrime(p) == p = 2 \/ (p >= 3 /\ p % 2 = 1 /\ NoDivisorFrom(p, 3))
-GenEventOk(ev) ==
-  /\ ~ev.panic
-  /\ Len(ev.primes) = Len(ev.bits)
-  /\ \A i \in 1..Len(ev.primes) :
-       /\ BitLen(ev.primes[i]) = ev.bits[i]
-       /\ ev.primes[i] % (2 * ev.n) = 1
-       /\ IsPrime(ev.primes[i])
-       /\ \A j \in 1..Len(ev.primes) : i # j => ev.primes[i] # ev.primes[j]
+GenEventOk(ev) ==      \* a refusal (panic) is allowed when the request cannot be met
+  ev.panic \/
+    (/\ Len(ev.primes) = Len(ev.bits)
+     /\ \A i \in 1..Len(ev.primes) :
+          /\ BitLen(ev.primes[i]) = ev.bits[i]
+          /\ ev.primes[i] % (2 * ev.n) = 1
+          /\ IsPrime(ev.primes[i])
+          /\ \A j \in 1..Len(ev.primes) : i # j => ev.primes[i] # ev.primes[j])
 
 (***************************************************************************)
 (* The universe as a state machine: one Build action per parameter object  *)
